@@ -42,6 +42,7 @@ type Spec struct {
 	History  int    // monitor history length (0 = 30)
 	NoHub    bool
 	POP3TLS  bool // POP3 offers STLS (self-signed test certificate), not forced
+	SMTPTLS  bool // SMTP offers STARTTLS (same certificate), not forced
 	// AddFault makes the store refuse deliveries (an environment fault: the disk, the descriptor
 	// table, the network file system says no).  Only the message manager sees it: POP3, REST and
 	// the oracle read the real store.
@@ -99,6 +100,10 @@ type Sys struct {
 
 // New assembles a system.
 func New(spec Spec) *Sys {
+	if spec.SMTPTLS {
+		spec.SMTP.TLSEnabled = true
+		spec.SMTP.TLSCert, spec.SMTP.TLSPrivKey = TestCert()
+	}
 	conf := &config.Root{SMTP: spec.SMTP}
 	switch spec.Naming {
 	case "", "local":
@@ -225,6 +230,19 @@ func newConn(serve func(net.Conn)) *Conn {
 func (s *Sys) DialSMTP() *Conn {
 	id := int(s.nconn.Add(1))
 	return newConn(func(c net.Conn) { s.SMTP.VerifServeConn(id, c) })
+}
+
+// DialSMTPRaw starts a real SMTP session and hands out the client end of the connection itself
+// (no reader goroutine: the caller does blocking I/O, e.g. to run a TLS handshake on it).
+func (s *Sys) DialSMTPRaw() (client net.Conn, done chan struct{}) {
+	id := int(s.nconn.Add(1))
+	sc, cc := net.Pipe()
+	done = make(chan struct{})
+	Spawn(func() {
+		defer close(done)
+		s.SMTP.VerifServeConn(id, sc)
+	})
+	return cc, done
 }
 
 // DialPOP3 starts a real POP3 session on an in-memory connection.
